@@ -287,24 +287,19 @@ Qed.
 Lemma join_sub_segs sub : join_with slash (sub_segs sub) = sub.
 Proof. unfold sub_segs. destruct sub; [reflexivity|apply join_split]. Qed.
 
-Lemma fold_min_attained (l : list rpkg) init :
-  let F := fold_right (fun p acc => Nat.min (length (rpkg_string p)) acc) init l in
-  F = init \/ exists c, In c l /\ length (rpkg_string c) = F.
+Lemma best_key_attained (l : list rpkg) first :
+  best_key first l = first \/ exists c, In c l /\ rpkg_string c = best_key first l.
 Proof.
   induction l as [|x l IH]; cbn; [now left|].
-  cbn in IH. set (m := fold_right (fun p acc => Nat.min (length (rpkg_string p)) acc) init l) in *.
-  destruct (Nat.le_gt_cases (length (rpkg_string x)) m).
-  - right. exists x. split; [now left|lia].
-  - destruct IH as [IH|(c & Hin & Hc)].
-    + left. lia.
-    + right. exists c. split; [now right|lia].
+  fold (best_key first l). destruct (better (rpkg_string x) (best_key first l)).
+  - right. exists x. split; [now left|reflexivity].
+  - destruct IH as [IH|(c & Hin & Hc)]; [now left|]. right. exists c. split; [now right|exact Hc].
 Qed.
 
-Lemma min_len_attained l : l <> [] -> exists c, In c l /\ length (rpkg_string c) = min_len l.
+Lemma best_attained c l : exists c', In c' (c :: l) /\ rpkg_string c' = best_key (rpkg_string c) (c :: l).
 Proof.
-  destruct l as [|c l]; [congruence|]. intros _. unfold min_len.
-  destruct (fold_min_attained (c :: l) (length (rpkg_string c))) as [H|H]; [|exact H].
-  exists c. split; [now left|]. cbn in *. lia.
+  destruct (best_key_attained (c :: l) (rpkg_string c)) as [H|H]; [|exact H].
+  exists c. split; [now left|now rewrite H].
 Qed.
 
 (* the reverse lookup on a path obtained by a forward lookup gives back the
@@ -325,11 +320,11 @@ Proof.
     apply filter_In. split; [eapply alookup_some; [exact rpkg_eqb_spec|exact Hl]|apply str_eqb_refl]. }
   destruct (candidates b d) as [|c0 cs] eqn:Ec; [destruct Hp|].
   exists d. eexists. rewrite join_sub_segs. split; [reflexivity|]. rewrite <- Ec in *. split.
-  - (* a minimal-length candidate exists *)
-    pose proof min_len_attained as Hex.
-    destruct (Hex (candidates b d)) as (c & Hin & Hlen); [rewrite Ec; discriminate|].
-    intros Hnil. assert (Hf' : In c (filter (fun c => Nat.eqb (length (rpkg_string c)) (min_len (candidates b d))) (candidates b d))).
-    { apply filter_In. split; [exact Hin|now apply Nat.eqb_eq]. }
+  - (* the winning text is printed by some candidate *)
+    rewrite Ec. destruct (best_attained c0 cs) as (c & Hin & Hk).
+    intros Hnil.
+    assert (Hf' : In c (filter (fun c => str_eqb (rpkg_string c) (best_key (rpkg_string c0) (c0 :: cs))) (c0 :: cs))).
+    { apply filter_In. split; [exact Hin|]. rewrite Hk. apply str_eqb_refl. }
     rewrite Hnil in Hf'. destruct Hf'.
   - intros c Hc'. apply filter_In in Hc' as [Hc' _]. unfold candidates in Hc'.
     apply in_map_iff in Hc' as ([c' d'] & <- & Hin). apply filter_In in Hin as [Hin Heq].
@@ -355,7 +350,7 @@ Proof.
   split.
   - apply (Hdirs (c0, d')). apply Hc. rewrite Ec. now left.
   - intros c Hin.
-    pose proof (proj1 (filter_In (fun c => Nat.eqb (length (rpkg_string c)) (min_len (c0 :: cs))) c (c0 :: cs)) Hin) as [Hin' _].
+    pose proof (proj1 (filter_In (fun c => str_eqb (rpkg_string c) (best_key (rpkg_string c0) (c0 :: cs))) c (c0 :: cs)) Hin) as [Hin' _].
     rewrite <- Ec in Hin'.
     apply (alookup_in rpkg_eqb rpkg_eqb_spec); [exact Hn|now apply Hc].
 Qed.
@@ -479,4 +474,65 @@ Proof.
   destruct (final_addr sub real) as [rp rsub]. cbn [snd] in Hf. intros Hl.
   destruct (local_path_remote_inside b rp rsub path Hr Hd Hf Hl) as (d & _ & _ & Hi).
   now exists d, (sub_segs rsub).
+Qed.
+
+(* ====================================================================== *)
+(* C09: what a bundle answers depends on the manifest, not on where it is  *)
+(* ====================================================================== *)
+
+(* everything but the root is the same whichever directory the manifest is opened in *)
+Theorem open_dir_root_independent r1 r2 m :
+  match open_dir r1 m, open_dir r2 m with
+  | Ok b1, Ok b2 => b_dirs b1 = b_dirs b2 /\ b_meta b1 = b_meta b2 /\ b_reg b1 = b_reg b2 /\ b_depr b1 = b_depr b2
+                    /\ b_root b1 = r1 /\ b_root b2 = r2
+  | Rej, Rej => True
+  | Out, Out => True
+  | _, _ => False
+  end.
+Proof.
+  unfold open_dir. destruct (negb (N.eqb (m_format m) 1)); [exact I|].
+  destruct (load_packages (m_packages m) [] []) as [[dirs meta]| |]; cbn [rbind]; try exact I.
+  destruct (load_registry (m_registry m) [] []) as [[reg depr]| |]; cbn [rbind]; try exact I.
+  cbn. repeat split.
+Qed.
+
+(* forward lookups: the root, then the same relative components *)
+Theorem forward_root_relative b1 b2 p sub :
+  b_dirs b1 = b_dirs b2 -> is_rooted (b_root b1) = true -> is_rooted (b_root b2) = true ->
+  dirs_inv (b_dirs b1) -> valid_sub sub ->
+  match local_path_remote b1 p sub, local_path_remote b2 p sub with
+  | Some p1, Some p2 => exists rel, comps p1 = comps (b_root b1) ++ rel /\ comps p2 = comps (b_root b2) ++ rel
+  | None, None => True
+  | _, _ => False
+  end.
+Proof.
+  intros Hd Hr1 Hr2 Hinv Hv. unfold local_path_remote. rewrite <- Hd.
+  destruct (alookup rpkg_eqb p (b_dirs b1)) as [d|] eqn:E; [|exact I].
+  assert (Hok : local_dir_ok d = true).
+  { destruct Hinv as [_ Hall]. apply (Hall (p, d)). eapply alookup_some; [exact rpkg_eqb_spec|exact E]. }
+  exists (d :: sub_segs sub). split; now apply join3_comps.
+Qed.
+
+(* reverse lookups of corresponding paths agree *)
+Theorem reverse_root_relative b1 b2 p1 p2 rel :
+  b_dirs b1 = b_dirs b2 ->
+  comps p1 = comps (b_root b1) ++ rel -> comps p2 = comps (b_root b2) ++ rel ->
+  source_for_local_path b1 p1 = source_for_local_path b2 p2.
+Proof.
+  intros Hd H1 H2. unfold source_for_local_path, candidates.
+  now rewrite H1, H2, !strip_prefix_app, Hd.
+Qed.
+
+(* the reverse lookup's choice does not depend on anything but the manifest:
+   all packages it may return print the same text *)
+Theorem reverse_choice_deterministic b path d sub cands :
+  source_for_local_path b path = Some (d, sub, cands) ->
+  forall c c', In c cands -> In c' cands -> rpkg_string c = rpkg_string c'.
+Proof.
+  unfold source_for_local_path.
+  destruct (strip_prefix (comps (b_root b)) (comps path)) as [[|d' rest]|]; try discriminate.
+  destruct (candidates b d') as [|c0 cs]; [discriminate|]. intros [= <- <- <-] c c' Hc Hc'.
+  pose proof (proj1 (filter_In (fun c => str_eqb (rpkg_string c) (best_key (rpkg_string c0) (c0 :: cs))) c (c0 :: cs)) Hc) as [_ H1].
+  pose proof (proj1 (filter_In (fun c => str_eqb (rpkg_string c) (best_key (rpkg_string c0) (c0 :: cs))) c' (c0 :: cs)) Hc') as [_ H2].
+  apply str_eqb_eq in H1, H2. congruence.
 Qed.
